@@ -197,10 +197,17 @@ func scalarFromWire(t, s string) any {
 func wireNode(w W) dom.Node {
 	switch x := w.(type) {
 	case []any:
-		lb := dom.ListNode()
-		for _, e := range x {
-			lb.Append(wireNode(e))
+		// built through the variadic constructor from a slice with spare capacity that is
+		// scribbled over afterwards: a list must not alias its constructor's arguments
+		items := make([]dom.Node, len(x), len(x)+3)
+		for i, e := range x {
+			items[i] = wireNode(e)
 		}
+		lb := dom.ListNode(items...)
+		for i := range items {
+			items[i] = scribbleLeaf
+		}
+		_ = append(items, scribbleLeaf, scribbleLeaf)
 		return lb
 	case map[string]any:
 		if c, ok := x["m"].(map[string]any); ok {
@@ -217,6 +224,8 @@ func wireNode(w W) dom.Node {
 	}
 	panic(fmt.Sprintf("wireNode: unexpected %T", w))
 }
+
+var scribbleLeaf = dom.LeafNode("<<scribbled: the list aliased its constructor's slice>>")
 
 func wireContainer(w W) dom.ContainerBuilder {
 	return wireNode(w).(dom.ContainerBuilder)
